@@ -108,6 +108,16 @@ CLAIMS = {
     design_ref="DESIGN.md section 5 C08",
     note="As C09. Time is the virtual step clock (hook); the real clock truncates to whole milliseconds.",
     technique="Lean 4 theorems (partial) + differential correspondence + exhaustive pause-position oracle"),
+ "C02": dict(
+    category="proof",
+    text=("Proved for all values: the save codec of stack objects (control commands, native calls, strings, ints, "
+          "bools, glue, void, tags), of integer dictionaries (visit and turn counts) and of push/pop codes decodes "
+          "what it encodes. NOT proved: decode(encode(s)) = s for whole states (partial) — decided by the tie (the "
+          "model's save equals the real save, normalised, after every step of every history) and by the oracle: a "
+          "fresh story that loaded the save is played in lockstep with the original over a random continuation."),
+    design_ref="DESIGN.md section 5 C02",
+    note="As C09. Error/warning lists are not part of a save; the cosmetic choice index is ignored.",
+    technique="Lean 4 round-trip theorems over the save codec (partial) + differential correspondence + lockstep oracle"),
 }
 
 REASONS_PENDING = "check not built yet in this revision of /verif (see DESIGN.md section 9.1 for the order of work)"
